@@ -14,7 +14,6 @@ ASSUMPTIONS = ['queue order is observed by wrapping the public send_frame / send
                'SETUP may overtake (priority insert) on stream 0 only']
 DECIDING_REQUIRED = ('fragment_runs_checked', 'frames_behind_unfinished_run', 'frames_order_checked')
 BUDGET_S = {'quick': 100, 'thorough': 1800}
-CASE_WALL_LIMIT = {'quick': 60, 'thorough': 180}
 
 
 def plan(tier, seed):
